@@ -286,6 +286,23 @@ func genOptionsTbl(repo string) (genFile, error) {
 	b.WriteString(allTrue(envFacts))
 	b.WriteString("\n\n/-- the code pieces of loadCfg the model transcribes, found verbatim -/\ndef loadCfgShape : Bool := ")
 	b.WriteString(allTrue(cfgFacts))
+	// the list-valued setting (sflow-type-filter): how one occurrence of the flag / one file entry adds to the list
+	var setStmts []string
+	if fd := funcDecl(f, "arrUInt32Flags", "Set"); fd != nil {
+		for _, st := range fd.Body.List {
+			setStmts = append(setStmts, src(fset, st))
+		}
+	} else {
+		setStmts = []string{"!unrecognised: arrUInt32Flags.Set missing"}
+	}
+	b.WriteString("\n\n/-- the statements of `arrUInt32Flags.Set` (the sFlow type filter's flag value): every occurrence APPENDS its comma list -/\ndef filterFlagSet : List String := [")
+	for i, h := range setStmts {
+		if i > 0 {
+			b.WriteString(", ")
+		}
+		b.WriteString(leanStr(h))
+	}
+	b.WriteString("]")
 	b.WriteString("\n\nend Vflow.Gen.OptionsTbl\n")
 	return genFile{name: "OptionsTbl", body: b.String()}, nil
 }
